@@ -106,24 +106,14 @@ func CompletionOrderSig(evs []rig.Ev) string {
 
 func (p *PropDef) RunCase(seed int64, tier string, idx int) vp.CaseResult {
 	sc := p.Gen(seed, tier, idx)
-	sc.Name = fmt.Sprintf("%s/%s/seed=%d/case=%d", p.PID, tier, seed, idx)
+	sc.Name = fmt.Sprintf("%s/%s/seed=%d/case=%d|cause=%s", p.PID, tier, seed, idx, sc.Name)
 	var hooks *Hooks
 	if p.Hooks != nil {
 		hooks = p.Hooks(sc)
 	}
 	out := Run(sc, hooks)
 	res := vp.CaseResult{Stats: map[string]int64{}, Sets: map[string][]string{}}
-	if f := os.Getenv("VF_EVENTS"); f != "" {
-		if fh, err := os.Create(f); err == nil {
-			b, _ := json.Marshal(sc)
-			fh.Write(append(b, '\n'))
-			for i := range out.Evs {
-				b, _ := json.Marshal(out.Evs[i])
-				fh.Write(append(b, '\n'))
-			}
-			fh.Close()
-		}
-	}
+	DumpEvents(os.Getenv("VF_EVENTS"), sc, out.Evs)
 	if out.Inconclusive != "" && len(out.Evs) == 0 {
 		res.Inconclusive = out.Inconclusive
 		return res
@@ -157,9 +147,27 @@ func (p *PropDef) RunCase(seed int64, tier string, idx int) vp.CaseResult {
 	if idx%97 == 0 || len(v.Violations) > 0 {
 		ex := out.Evs
 		if len(ex) > 40 {
-			ex = ex[len(ex)/2 : len(ex)/2+40]
+			ex = ex[len(ex)/2-20 : len(ex)/2+20]
 		}
 		res.Sample = map[string]any{"scenario": sc, "events_total": len(out.Evs), "final_status": out.FinalStatus, "history_excerpt": ex}
 	}
 	return res
+}
+
+// DumpEvents writes a scenario and its history as JSON lines (development aid).
+func DumpEvents(f string, sc *Scenario, evs []rig.Ev) {
+	if f == "" {
+		return
+	}
+	fh, err := os.Create(f)
+	if err != nil {
+		return
+	}
+	defer fh.Close()
+	b, _ := json.Marshal(sc)
+	fh.Write(append(b, '\n'))
+	for i := range evs {
+		b, _ := json.Marshal(evs[i])
+		fh.Write(append(b, '\n'))
+	}
 }
